@@ -1,5 +1,134 @@
+import Rigo.Signer
 import RigoDriver.Util
+open Rigo.Signer
+
+/-
+  Line protocol of the C20 signer model (one output line per input line):
+
+    reset
+    vote <h> <r> <prevote|precommit|unknown> <content> <ts>
+    proposal <h> <r> <content> <ts>
+    crashBeforeSave <vote …|proposal …>      process dies before the atomic state-file write
+    crashAfterSave  <vote …|proposal …>      process dies after it, before the reply is released
+    reload                                    LoadSFilePV (memory := disk)
+    inject <h> <r> <s> <none|content:ts> <sig|nosig>
+        hand-made state file + reload (NOT an operation of the property's quantifier; used only to
+        compare the defensive CheckHRS branches with the real code)
+
+  Output: `ok fresh|same sig=<i>` / `ok ts-same ts=<t> sig=<i>` / `err <kind>` / `panic <kind>` /
+  `crashed <before|after> <what had been computed>` / `reloaded` / `injected`, each followed by
+  ` mem=<h>/<r>/<s>:<bs> disk=<h>/<r>/<s>:<bs>` (b = sign bytes present, s = signature present).
+  `sig=<i>` is the 0-based line index (since `reset`) of the first request whose sign bytes the
+  returned signature verifies against.
+-/
 namespace RigoDriver.Signer
-/-- stub: replaced by the component's line-protocol driver -/
-def run : IO Unit := pure ()
+
+structure DSt where
+  st : St := {}
+  n : Nat := 0                            -- lines since reset
+  reqs : List (Nat × SignBytes) := []     -- (line index, sign bytes) of every request so far
+
+def parseVT : String → Option VoteType
+  | "prevote" => some .prevote
+  | "precommit" => some .precommit
+  | "unknown" => some .unknown
+  | _ => none
+
+def parseReq : List String → Option Req
+  | ["vote", h, r, t, c, ts] => do
+    pure (.vote (← h.toInt?) (← r.toInt?) (← parseVT t) (← c.toNat?) (← ts.toNat?))
+  | ["proposal", h, r, c, ts] => do
+    pure (.proposal (← h.toInt?) (← r.toInt?) (← c.toNat?) (← ts.toNat?))
+  | _ => none
+
+def parseOp : List String → Option Op
+  | ["reload"] => some .reload
+  | "crashBeforeSave" :: rest => (parseReq rest).map .crashBeforeSave
+  | "crashAfterSave" :: rest => (parseReq rest).map .crashAfterSave
+  | ws => (parseReq ws).map .sign
+
+def showLSS (l : LSS) : String :=
+  s!"{l.height}/{l.round}/{l.step}:" ++ (if l.signBytes.isSome then "b" else "-") ++
+    (if l.signature.isSome then "s" else "-")
+
+def showSt (s : St) : String := s!" mem={showLSS s.mem} disk={showLSS s.disk}"
+
+def showErr : Err → String
+  | .heightRegression => "height-regression"
+  | .roundRegression => "round-regression"
+  | .stepRegression => "step-regression"
+  | .noSignBytes => "no-signbytes"
+  | .conflict => "conflict"
+
+def showPanic : PanicKind → String
+  | .unknownVoteType => "unknown-vote-type"
+  | .signatureNil => "signature-nil"
+
+/-- first request whose sign bytes the signature verifies against -/
+def sigIndex (reqs : List (Nat × SignBytes)) (sig : Sig) : String :=
+  match reqs.find? (fun p => verify sig p.2) with
+  | some p => s!"{p.1}"
+  | none => "none"
+
+def showRes (reqs : List (Nat × SignBytes)) (withSig : Bool) : Res → String
+  | .fresh sig => "fresh" ++ (if withSig then s!" sig={sigIndex reqs sig}" else "")
+  | .same sig => "same" ++ (if withSig then s!" sig={sigIndex reqs sig}" else "")
+  | .tsSame sig ts => s!"ts-same ts={ts}" ++ (if withSig then s!" sig={sigIndex reqs sig}" else "")
+  | .err e => "err " ++ showErr e
+  | .panic p => "panic " ++ showPanic p
+
+def showOut (reqs : List (Nat × SignBytes)) : Out → String
+  | .reply (.err e) => "err " ++ showErr e
+  | .reply (.panic p) => "panic " ++ showPanic p
+  | .reply r => "ok " ++ showRes reqs true r
+  | .crashed .beforeSave r => "crashed before " ++ showRes reqs false r
+  | .crashed .afterSave r => "crashed after " ++ showRes reqs false r
+  | .reloaded => "reloaded"
+
+def parseInject : List String → Option LSS
+  | [h, r, s, sb, sg] => do
+    let h ← h.toInt?
+    let r ← r.toInt?
+    let s ← s.toInt?
+    let sb? : Option SignBytes ←
+      if sb = "none" then pure none else
+        match sb.splitOn ":" with
+        | [c, ts] => do
+          -- sign bytes exist only for steps 1..3
+          if s < 1 ∨ s > 3 then none else
+          pure (some ⟨h, r, s, ← c.toNat?, ← ts.toNat?⟩)
+        | _ => none
+    let sig? : Option Sig ←
+      match sg, sb? with
+      | "nosig", _ => pure none
+      | "sig", some b => pure (some (sign b))
+      | _, _ => none
+    pure ⟨h, r, s, sb?, sig?⟩
+  | _ => none
+
+def stepLine (d : DSt) (ws : List String) : DSt × Option String :=
+  match ws with
+  | ["reset"] => ({}, some "reset")
+  | "inject" :: rest =>
+    match parseInject rest with
+    | none => ({ d with n := d.n + 1 }, some "bad-op")
+    | some l =>
+      let st : St := ⟨l, l⟩
+      let reqs := match l.signBytes with
+        | some sb => d.reqs ++ [(d.n, sb)]
+        | none => d.reqs
+      ({ st := st, n := d.n + 1, reqs := reqs }, some ("injected" ++ showSt st))
+  | _ =>
+    match parseOp ws with
+    | none => ({ d with n := d.n + 1 }, some "bad-op")
+    | some op =>
+      let reqs := match op.req?.bind Req.signBytes? with
+        | some sb => d.reqs ++ [(d.n, sb)]
+        | none => d.reqs
+      let (st', o) := step d.st op
+      ({ st := st', n := d.n + 1, reqs := reqs }, some (showOut reqs o ++ showSt st'))
+
+def run : IO Unit := do
+  RigoDriver.loop (← IO.getStdin) (← IO.getStdout) ({} : DSt) stepLine
+
 end RigoDriver.Signer
